@@ -265,7 +265,8 @@ func c15Play(c *c15Case) (msg string, nt bool) {
 					return fmt.Sprintf("op %d: Equal=%v want %v", i, got, same), nt
 				}
 				// other dynamic types are never equal
-				if pool[v].Equal(map[uint16]uint8(pool[v])) || pool[v].Equal(z80.DumbMemory{}) || pool[v].Equal(42) {
+				ptr := pool[v].Clone() // a pointer to a MapMemory with the same contents is not a MapMemory value either
+				if pool[v].Equal(map[uint16]uint8(pool[v])) || pool[v].Equal(z80.DumbMemory{}) || pool[v].Equal(42) || pool[v].Equal(&ptr) || pool[v].Equal(nil) {
 					return fmt.Sprintf("op %d: Equal is true for a value that is not a MapMemory", i), nt
 				}
 			}
